@@ -759,9 +759,33 @@ def _csv(r, obs, lena):
             tl = tl[1:]
         _judge_rows(obs, tl, sep, _csv_expected(h, eff_dup), eff_dup, h,
                     "ToCSV" + (":context-duplicate_last_bin" if r["ctxdup"] is not None else ""))
+    # one element, several histograms in one run: the option a value carries in its context
+    # holds for that value only; the next one without the key gets the element's own setting
+    el2 = lena.output.ToCSV(separator=sep, duplicate_last_bin=dup)
+    seq_vals = [(copy_hist(h, lena), {"output": {"duplicate_last_bin": not dup}}),
+                copy_hist(h, lena),
+                (copy_hist(h, lena), {"k": 1}),
+                (copy_hist(h, lena), {"output": {"duplicate_last_bin": dup}}),
+                (copy_hist(h, lena), {"output": {"duplicate_last_bin": not dup}}),
+                copy_hist(h, lena)]
+    effs = [not dup, dup, dup, dup, not dup, dup]
+    res2 = list(el2.run(iter(seq_vals)))
+    obs.check(len(res2) == len(seq_vals), "ToCSV-flow-shape", "ToCSV.run yielded %d values for "
+              "%d histograms" % (len(res2), len(seq_vals)))
+    for pos, (y, eff) in enumerate(zip(res2, effs)):
+        if not (isinstance(y, tuple) and len(y) == 2 and isinstance(y[0], str)):
+            obs.fail("ToCSV-value-shape", "ToCSV yielded %r" % (y,))
+            break
+        _judge_rows(obs, y[0].split("\n"), sep, _csv_expected(h, eff), eff, h,
+                    "ToCSV:value-%d-of-a-flow-with-differing-context-options" % pos)
     obs.check((repr(h.edges), repr(h.bins)) == snapshot, "csv-modifies-histogram", "%r" % (h,))
     if nonzero(h) and ncell:
         obs.nontrivial = True
+
+
+def copy_hist(h, lena):
+    import copy
+    return lena.structures.histogram(copy.deepcopy(h.edges), bins=copy.deepcopy(h.bins))
 
 
 def _judge_rows(obs, body, sep, exp, dup, h, what):
